@@ -25,7 +25,7 @@ PROPERTY = 'C17'
 TECHNIQUE = 'symbolic STATE: every state_dict tensor of the checkpointed model is a z3 real; load into a fresh wrapper; output / cost / summary / export equality for all states and inputs as unsat queries'
 FUNCTIONS_ENCODED = ['nn.Module.state_dict/load_state_dict on PIT / MPS / SuperNet wrappers', 'PIT/MPS/SuperNet.forward/get_cost/summary/export', 'MPSBaseQtz.update_softmax_options', 'SuperNet.update_softmax_options',
                      'PIT.discrete_cost setter', 'register_buffer / nn.Parameter sites of maskers, quantizers, combiners, features calculators']
-BOUNDS = {'quick': 'PIT T1(K=2) and L1 (Linear+BN), MPS ML per-layer, SuperNet S(2,conv); prefixes: none, temperature := T (symbolic in [0.05,20]), hard := True, discrete_cost := True, gumbel := True; eval mode',
+BOUNDS = {'quick': 'PIT T1(K=2) and L1 (Linear+BN), MPS ML per-layer, SuperNet S(2,conv); prefixes: none, temperature := T (symbolic in [0.05,20], and the concrete values 1/2 and 3 for MPS), MPS also compared in training mode with soft sampling (re-sampled coefficients, cost), hard := True, discrete_cost := True, gumbel := True; eval mode',
           'thorough': 'PIT T2 / D2, MPS MD per-layer and per-channel, SuperNet S(3,mix) / 2 blocks; prefixes of length 2'}
 OUTSIDE = ['optimizer internal state', 'RNG state', 'train-mode forward arithmetic', 'constructor arguments (the fresh wrapper is built with the same ones; only options changed AFTER construction count)']
 ASSUMPTIONS = ['BatchNorm running variances >= 0', 'MPS / SuperNet coefficient margins >= 0.05 where an arg-max decides']
@@ -36,7 +36,7 @@ Q = 60000
 def instances(tier, seed):
     out = []
     cfgs = [('PIT', {'fam': 'T1', 'K': 2, 'C': 2}, ['none', 'discrete_cost']), ('PIT', {'fam': 'L1'}, ['none']),
-            ('MPS', {'fam': 'ML', 'bn': False, 'wtype': 'layer', 'w': [2, 8], 'a': [4, 8]}, ['none', 'temperature', 'hard', 'gumbel']),
+            ('MPS', {'fam': 'ML', 'bn': False, 'wtype': 'layer', 'w': [2, 8], 'a': [4, 8]}, ['none', 'temperature', 'temperature=1/2', 'temperature=3', 'hard', 'gumbel']),
             ('SuperNet', {'n': 2, 'kind': 'conv'}, ['none', 'temperature', 'hard']),
             ('SuperNet', {'n': 2, 'kind': 'conv', 'gumbel': True}, ['train_forward']),
             ('MPS', {'fam': 'ML', 'bn': False, 'wtype': 'layer', 'w': [2, 8], 'a': [4, 8], 'mps': {'disable_sampling': True}}, ['none'])]
@@ -73,6 +73,9 @@ def apply_prefix(method, w, pre, T, xin=None):
             continue
         if op == 'temperature':
             w.update_softmax_options(temperature=T)
+        elif op.startswith('temperature='):
+            # a concrete temperature (all queries stay linear, unlike the symbolic one)
+            w.update_softmax_options(temperature=float(Fraction(op.split('=')[1])))
         elif op == 'hard':
             w.update_softmax_options(hard=True)
         elif op == 'gumbel':
@@ -198,7 +201,36 @@ def concrete_case(rec):
         ea, eb = A.export().eval(), B.export().eval()
         if float((ea(x) - eb(x)).abs().max()) > 1e-5:
             return 'export: exported networks differ'
+        d = _train_soft_costs(method, spec, A, B, rec['prefix'])
+        if d is not None:
+            ca, cb = d
+            for n in ca:
+                if abs(float(ca[n]) - float(cb[n])) > 1e-5 * max(1, abs(float(ca[n]))):
+                    return f'train_cost: {n} {float(ca[n])} vs {float(cb[n])} (training mode, soft sampling)'
     return None
+
+
+def _train_soft_costs(method, spec, A, B, pre):
+    """MPS, deterministic samplers only: both models back in training mode, coefficients re-sampled (soft SoftMax, where the temperature
+    matters), cost of each. None where not applicable."""
+    if method != 'MPS' or spec.get('mps', {}).get('disable_sampling') or 'gumbel' in pre or 'hard' in pre:
+        return None
+    from plinio.methods.mps.nn.qtz import MPSBaseQtz
+    out = []
+    for w in (A, B):
+        w.train()
+        seen = set()
+        saved = []
+        for q in w.modules():
+            if isinstance(q, MPSBaseQtz) and id(q) not in seen:
+                seen.add(id(q))
+                saved.append((q, q.theta_alpha))
+                q.sample_alpha()
+        out.append({n: st.scalar_of(w.get_cost(n)) if isinstance(w.get_cost(n), SymTensor) else w.get_cost(n) for n in cost_names(method)})
+        for q, th in saved:
+            q.theta_alpha = th
+        w.eval()
+    return out
 
 
 def replay(rec):
@@ -239,6 +271,10 @@ def run_instance(p):
                 yea, yeb = ea(x), eb(x)
             except Exception as e_:
                 err = f'{type(e_).__name__}: {e_}'[:200]
+            tc = _train_soft_costs(method, spec, A, B, pre)
+            if tc is not None:
+                ca = dict(ca, **{'train:' + k: v for k, v in tc[0].items()})
+                cb = dict(cb, **{'train:' + k: v for k, v in tc[1].items()})
         return syms, T, x, keys, (ya, yb), (ca, cb), (sa, sb), (yea, yeb), err
     ex = Explorer(timeout_ms=Q)
     n = 0
@@ -248,6 +284,17 @@ def run_instance(p):
             break
         problems = []
         unknowns = []
+        allv = [v for s_ in syms.values() for v in s_.elems()] + x.elems()
+        cons = [v * 8 == z3.ToReal(z3.Int(f'g!{i}')) for i, v in enumerate(allv)] + [v >= -4 for v in allv] + [v <= 4 for v in allv] + [T * 8 == z3.ToReal(z3.Int('gT'))]
+
+        def cheap(bad_):
+            # the solver could not decide the difference formula: evaluate it on a few float32-friendly models of the path; a model on which it is
+            # true is a counterexample candidate (replayed on plain torch before it is reported), none found leaves the clause inconclusive
+            for k_ in range(4):
+                rk, mk = ex.check(*cons, *[v >= Fraction(k_, 4) for v in allv[:k_ + 1]], T != 1, timeout_ms=20000)
+                if rk == 'sat' and z3.is_true(mk.eval(bad_, model_completion=True)):
+                    return True
+            return False
         if keys[0] or keys[1]:
             problems.append(('keys', f'missing {keys[0]} unexpected {keys[1]}', None))
         bad = st.any_differs(ya, yb) if tuple(ya.shape) == tuple(yb.shape) else True
@@ -255,6 +302,8 @@ def run_instance(p):
             bad = st.any_differs(ya, yb + 1)
         if bad is not False:
             r, m = ex.check(bad, timeout_ms=20000) if bad is not True else ('sat', None)
+            if r == 'unknown' and bad is not True and cheap(bad):
+                r = 'sat'
             if r == 'unknown':
                 unknowns.append('output equivalence unknown')
             elif r == 'sat':
@@ -263,10 +312,12 @@ def run_instance(p):
             bad = st.e_ne(ca[nme], cb[nme])
             if bad is not False:
                 r, m = ex.check(bad) if bad is not True else ('sat', None)
+                if r == 'unknown' and bad is not True and cheap(bad):
+                    r = 'sat'
                 if r == 'unknown':
                     unknowns.append(f'cost {nme} equality unknown')
                 elif r == 'sat':
-                    problems.append(('cost', f'{nme} cost differs after restore', bad if bad is not True else None))
+                    problems.append(('train_cost' if nme.startswith('train:') else 'cost', f'{nme} cost differs after restore', bad if bad is not True else None))
                     break
         if sa != sb:
             problems.append(('summary', f'summary differs: {sa[:120]} vs {sb[:120]}', None))
@@ -294,13 +345,11 @@ def run_instance(p):
             continue
         obs, text, bad = problems[0]
         # a float32-friendly model: state on a coarse grid
-        allv = [v for s_ in syms.values() for v in s_.elems()] + x.elems()
-        cons = [v * 8 == z3.ToReal(z3.Int(f'g!{i}')) for i, v in enumerate(allv)] + [v >= -4 for v in allv] + [v <= 4 for v in allv] + [T * 8 == z3.ToReal(z3.Int('gT'))]
         r, m = ex.check(*([bad] if bad is not None else []), *cons, timeout_ms=30000)
         if r != 'sat' and bad is not None:
             # cheap search: evaluate the difference on a few grid models of the path
             for k_ in range(4):
-                rk, mk = ex.check(*cons, *[v >= Fraction(k_, 4) for v in allv[:k_ + 1]], timeout_ms=20000)
+                rk, mk = ex.check(*cons, *[v >= Fraction(k_, 4) for v in allv[:k_ + 1]], T != 1, timeout_ms=20000)
                 if rk == 'sat' and z3.is_true(mk.eval(bad, model_completion=True)):
                     r, m = 'sat', mk
                     break
